@@ -63,20 +63,22 @@ theorem twoWayCmp_eq_symm (L : NumCmpLaws ν) (x y f g : ν) :
 theorem numericEq_symm (L : NumCmpLaws ν) {q : ValQuirks} (h : q.numRepaired) (env : Env ν)
     (x : ν) (ux : Nat) (y : ν) (uy : Nat) :
     numericEq q env x ux y uy = numericEq q env y uy x ux := by
-  unfold numericEq numericCmp
-  rw [cmp_of_repaired h]
-  by_cases hu : ux = uy
-  · subst hu
-    simp only [if_true]
-    exact numCmp_spec_eq_symm L x y
-  · have hu' : ¬ uy = ux := fun e => hu e.symm
-    simp only [hu, hu', if_false]
-    by_cases h0 : ux = 0 ∨ uy = 0
-    · have h0' : uy = 0 ∨ ux = 0 := h0.symm
-      simp only [h0, h0', if_true]
-      rw [noEqual_ne, noEqual_ne]
-    · have h0' : ¬ (uy = 0 ∨ ux = 0) := fun e => h0 e.symm
-      simp only [h0, h0', if_false, h.2, Bool.false_eq_true]
+  unfold numericEq
+  by_cases hc : ux ≠ uy ∧ (ux = 0 ∨ uy = 0)
+  · have hc' : uy ≠ ux ∧ (uy = 0 ∨ ux = 0) := ⟨fun e => hc.1 e.symm, hc.2.symm⟩
+    rw [if_pos hc, if_pos hc']
+  · have hc' : ¬ (uy ≠ ux ∧ (uy = 0 ∨ ux = 0)) := fun e => hc ⟨fun e' => e.1 e'.symm, e.2.symm⟩
+    rw [if_neg hc, if_neg hc']
+    unfold numericCmp
+    rw [cmp_of_repaired h]
+    by_cases hu : ux = uy
+    · subst hu
+      simp only [if_true]
+      exact numCmp_spec_eq_symm L x y
+    · have hu' : ¬ uy = ux := fun e => hu e.symm
+      have h0 : ¬ (ux = 0 ∨ uy = 0) := fun e => hc ⟨hu, e⟩
+      have h0' : ¬ (uy = 0 ∨ ux = 0) := fun e => h0 e.symm
+      simp only [hu, hu', if_false, h0, h0', h.2, Bool.false_eq_true]
       cases hf : env.conv uy ux <;> cases hg : env.conv ux uy <;> simp only []
       exact twoWayCmp_eq_symm L x y _ _
 
@@ -104,13 +106,13 @@ theorem colorEq_symm (L : NumCmpLaws ν) (r1 g1 b1 a1 r2 g2 b2 a2 : ν) :
 
 /-! ### strings -/
 
-theorem strEq_symm (s1 : List Nat) (q1 : Quotes) (s2 : List Nat) (q2 : Quotes) :
-    strEq s1 q1 s2 q2 = strEq s2 q2 s1 q1 := by
+theorem strEq_symm (r : Bool) (s1 : List Nat) (q1 : Quotes) (s2 : List Nat) (q2 : Quotes) :
+    strEq r s1 q1 s2 q2 = strEq r s2 q2 s1 q1 := by
   unfold strEq
   by_cases h : q1 = q2
-  · subst h; simp [Bool.beq_comm]
+  · subst h; cases r <;> simp [Bool.beq_comm]
   · have h' : ¬ q2 = q1 := fun e => h e.symm
-    simp [h, h', Bool.beq_comm]
+    cases r <;> simp [h, h', Bool.beq_comm]
 
 /-! ### lists and maps, given symmetry on the elements of the first argument -/
 
@@ -190,7 +192,8 @@ theorem symAt : (a : V ν) → SymAt q env a
   | .tt => fun b => by cases b <;> simp [V.eq]
   | .ff => fun b => by cases b <;> simp [V.eq]
   | .num x ux => fun b => by cases b <;> simp [V.eq, hnum]
-  | .str s1 q1 => fun b => by cases b <;> simp [V.eq, strEq_symm s1 q1]
+  | .numAtomic x ux => fun b => by cases b <;> simp [V.eq, hnum]
+  | .str s1 q1 => fun b => by cases b <;> simp [V.eq, strEq_symm _ s1 q1]
   | .color r g bl al => fun b => by cases b <;> simp [V.eq, colorEq_symm L r g bl al]
   | .fn i => fun b => by cases b <;> simp [V.eq, Bool.beq_comm]
   | .list xs s1 b1 => fun b => by
@@ -246,7 +249,7 @@ end symm
 theorem numericEq_refl (L : NumCmpLaws ν) (q : ValQuirks) (env : Env ν) (x : ν) (u : Nat)
     (hx : isNaN x = false) : numericEq q env x u x u = true := by
   unfold numericEq numericCmp
-  simp only [if_true]
+  simp only [ne_eq, not_true_eq_false, false_and, if_false, if_true]
   rw [numCmp_eq_iff L, L.feq_refl x hx, Bool.or_true]
 
 theorem cmpChan_refl (L : NumCmpLaws ν) (a : ν) : (cmpChan a a == .eq) = true := by
@@ -258,8 +261,8 @@ theorem cmpChan_refl (L : NumCmpLaws ν) (a : ν) : (cmpChan a a == .eq) = true 
 theorem colorEq_refl (L : NumCmpLaws ν) (r g b a : ν) : colorEq r g b a r g b a = true := by
   simp [colorEq, cmpChan_refl L]
 
-theorem strEq_refl (s : List Nat) (qq : Quotes) : strEq s qq s qq = true := by
-  simp [strEq]
+theorem strEq_refl (r : Bool) (s : List Nat) (qq : Quotes) : strEq r s qq s qq = true := by
+  cases r <;> simp [strEq]
 
 section refl
 variable (q : ValQuirks) (env : Env ν)
@@ -322,6 +325,9 @@ theorem reflAt : (a : V ν) → V.noNaN a = true →
   | .tt, _, _ => by simp [ReflAt, V.eq]
   | .ff, _, _ => by simp [ReflAt, V.eq]
   | .num x u, hn, _ => by
+    simp only [V.noNaN, Bool.not_eq_true'] at hn
+    simp [ReflAt, V.eq, numericEq_refl L q env x u hn]
+  | .numAtomic x u, hn, _ => by
     simp only [V.noNaN, Bool.not_eq_true'] at hn
     simp [ReflAt, V.eq, numericEq_refl L q env x u hn]
   | .str s qq, _, _ => by simp [ReflAt, V.eq, strEq_refl]
